@@ -439,12 +439,12 @@ def run_concrete(fn, variant, model=None, seed=0, max_runs=20000):
             if isinstance(e, (KeyError, AttributeError)) and (os.sep + 'contracts' + os.sep) in last.filename:
                 # the harness itself could not reach what it wanted to look at (an executor's private cache, an attribute): that is
                 # a limit of the harness, not behaviour of the code under contract
+                # (clauses evaluated BEFORE that point still count: they are collected below)
                 status = 'unsupported: harness could not observe (%s: %s)' % (type(e).__name__, e)
-                nruns += 1
-                break
-            status = 'exception'
-            failures.append({'check': 'no-exception', 'exception': '%s: %s' % (type(e).__name__, e),
-                             'drawn': dict(ctx.drawn), 'choices': [(c[0], c[2]) for c in ctx.choices[:ctx.choice_pos]]})
+            else:
+                status = 'exception'
+                failures.append({'check': 'no-exception', 'exception': '%s: %s' % (type(e).__name__, e),
+                                 'drawn': dict(ctx.drawn), 'choices': [(c[0], c[2]) for c in ctx.choices[:ctx.choice_pos]]})
         nruns += 1
         for (name, ok) in ctx.results:
             nchecks += 1
@@ -452,7 +452,7 @@ def run_concrete(fn, variant, model=None, seed=0, max_runs=20000):
                 failures.append({'check': name, 'drawn': dict(ctx.drawn),
                                  'choices': [(c[0], c[2]) for c in ctx.choices[:ctx.choice_pos]]})
         choices = ctx.choices
-        if failures or nruns >= max_runs or not next_choices():
+        if failures or status.startswith('unsupported: harness') or nruns >= max_runs or not next_choices():
             break
         choices = ctx.choices
     return failures, nruns, nchecks, status
